@@ -267,7 +267,7 @@ impl C08 {
     /// one (stream, vector) pair; `corrupt` (self-test) flips a byte of the reconstruction
     pub fn judge_pair(d: &[u8], v: &PV, how: &str, label: &str, ctx: &mut Ctx, corrupt: bool) -> (bool, Option<usize>) {
         ctx.count("evaluations");
-        let out = cur::roundtrip_with_params(d, v);
+        let out = crate::api::cur_roundtrip_phased(d, v);
         let case = json!({"label": label, "vector": v.to_vec(), "perturbed": how});
         let triple = format!("hash{}:add{}:{}", v[S_HASH], v[S_ADDK], if v[S_LAZY] > 0 { "lazy" } else { "greedy" });
         match out {
@@ -307,6 +307,22 @@ impl C08 {
                     );
                 }
                 (bad, Some(csize))
+            }
+            Out::Err(c) if c.starts_with("decode:") => {
+                // corrections were produced under this vector, so "fails with Err" no longer applies: the
+                // reconstruction from them has to succeed
+                ctx.count(&format!("triple:{}:decode_err", triple));
+                ctx.violation(
+                    "reconstruction_failed",
+                    &format!("reconstruction_failed|{}", c),
+                    &format!(
+                        "corrections were produced under vector {:?} ({}) but reconstructing from them returned Err({}) on {}",
+                        v, how, &c[7..], label
+                    ),
+                    case,
+                    d,
+                );
+                (true, None)
             }
             Out::Err(c) => {
                 ctx.count(&format!("triple:{}:err", triple));
@@ -403,7 +419,7 @@ impl Monitor for C08 {
             }
         } else if k < self.n_gen + self.n_comp {
             let mut r = Rng::derive(self.seed, 0x0802, k - self.n_gen, 0);
-            let s = if k % 50 == 49 { streams::boundary_dense_stream(&mut r, max_plain) } else { streams::compressor_stream(&mut r, max_plain, None) };
+            let s = if k % 8 == 7 { streams::boundary_dense_stream(&mut r, max_plain) } else { streams::compressor_stream(&mut r, max_plain, None) };
             Self::judge_stream(
                 &s.bytes,
                 &format!("{}: {}", streams::SOURCE_NAMES[s.source], s.recipe),
